@@ -131,21 +131,8 @@ func widthRule(c *core.Ctx, rel, typ, meth string) {
 	d := size.Add(want, -1)
 	c.Decide(d.IsConst() && d.C == 0, "C16-WIDTH", key+"#size", pos, "buffer size == emitted length field + 4 ("+size.String()+")",
 		fmt.Sprintf("the buffer has %s octets but the emitted length field is %s: the length field disagrees with the number of value octets emitted", size, lenVal))
-	// typed range check on the source expression of the size
-	decl, pkg := c.Prog.FuncDecl(m)
-	wrap := ""
-	ast.Inspect(decl.Body, func(n ast.Node) bool {
-		call, ok := n.(*ast.CallExpr)
-		if !ok {
-			return true
-		}
-		if id, ok := call.Fun.(*ast.Ident); ok && id.Name == "make" && len(call.Args) >= 2 {
-			if w := typedRangeCheck(pkg.TypesInfo, call.Args[1]); w != "" {
-				wrap = w
-			}
-		}
-		return true
-	})
+	// typed range check on the definition of the size (SSA, so named locals and constants are followed)
+	wrap := ssaRangeCheck(mk.Len)
 	c.Decide(wrap == "", "C16-WIDTH", key+"#nowrap", pos, "size arithmetic cannot wrap", "size arithmetic can wrap: "+wrap)
 	checkSites(c, "C16-WIDTH", []*ssa.Function{sf})
 }
@@ -428,6 +415,18 @@ func sliceParserRule(c *core.Ctx, fn *ssa.Function, sums []parserSummary) {
 		return
 	}
 	fields := structStores(update.Value)
+	// origin of a slice value: the root it is carved from (a parameter or a loop-carried slice) and the cumulative offset
+	var origin func(v ssa.Value, depth int) (ssa.Value, prover.Lin)
+	origin = func(v ssa.Value, depth int) (ssa.Value, prover.Lin) {
+		if sl, ok := v.(*ssa.Slice); ok && depth < 8 {
+			root, off := origin(sl.X, depth+1)
+			if sl.Low != nil {
+				off = off.Add(p.LinOf(sl.Low), 1)
+			}
+			return root, off
+		}
+		return v, prover.Const(0)
+	}
 	offOf := func(v ssa.Value) (prover.Lin, ssa.Value, bool) {
 		call, ok := stripConv(v).(*ssa.Call)
 		if !ok {
@@ -437,11 +436,11 @@ func sliceParserRule(c *core.Ctx, fn *ssa.Function, sums []parserSummary) {
 		if cal == nil || cal.Name() != "Uint16" || cal.Signature.Recv() == nil || !strings.Contains(cal.Signature.Recv().Type().String(), "bigEndian") {
 			return prover.Lin{}, nil, false
 		}
-		sl, ok := call.Call.Args[1].(*ssa.Slice)
-		if !ok || sl.Low == nil {
+		if _, ok := call.Call.Args[1].(*ssa.Slice); !ok {
 			return prover.Lin{}, nil, false
 		}
-		return p.LinOf(sl.Low), sl.X, true
+		root, off := origin(call.Call.Args[1], 0)
+		return off, root, true
 	}
 	tagOff, src1, ok1 := offOf(fields["tag"])
 	lenOff, src2, ok2 := offOf(fields["length"])
@@ -470,11 +469,20 @@ func sliceParserRule(c *core.Ctx, fn *ssa.Function, sums []parserSummary) {
 				}
 			}
 		}
-		if vsl == nil || vsl.X != src1 || vsl.Low == nil || vsl.High == nil {
+		var vroot ssa.Value
+		var voff prover.Lin
+		if vsl != nil {
+			vroot, voff = origin(vsl, 0)
+		}
+		if vsl == nil || vroot != src1 || vsl.High == nil {
 			problems = append(problems, "the stored value is not (a copy of) a sub-slice of the input")
 		} else {
-			vo := p.LinOf(vsl.Low).Add(tagOff, -1)
-			vl := p.LinOf(vsl.High).Add(p.LinOf(vsl.Low), -1).Add(p.LinOf(fields["length"]), -1)
+			vo := voff.Add(tagOff, -1)
+			lowL := prover.Const(0)
+			if vsl.Low != nil {
+				lowL = p.LinOf(vsl.Low)
+			}
+			vl := p.LinOf(vsl.High).Add(lowL, -1).Add(p.LinOf(fields["length"]), -1)
 			if !vo.IsConst() || vo.C != 4 {
 				problems = append(problems, "the value does not start 4 octets after the tag ("+vo.String()+")")
 			}
@@ -541,6 +549,7 @@ func serialRule(c *core.Ctx, rel, typ, meth, entryMeth string) {
 	}
 	pos := c.Prog.Pos(m.Pos())
 	var ranges []*ssa.Range
+	var emitRange *ssa.Range // the range loop whose entries are appended
 	var appends int
 	entryCalls := 0
 	for _, b := range fn.Blocks {
@@ -555,8 +564,11 @@ func serialRule(c *core.Ctx, rel, typ, meth, entryMeth string) {
 						if cal := call.Call.StaticCallee(); cal != nil && cal.Name() == entryMeth {
 							// the entry must be the range value: Extract #2 of Next(range)
 							if ex, ok := call.Call.Args[0].(*ssa.Extract); ok && ex.Index == 2 {
-								if nx, ok := ex.Tuple.(*ssa.Next); ok && len(ranges) == 1 && nx.Iter == ssa.Value(ranges[0]) {
-									entryCalls++
+								if nx, ok := ex.Tuple.(*ssa.Next); ok {
+									if rg, ok := nx.Iter.(*ssa.Range); ok {
+										entryCalls++
+										emitRange = rg
+									}
 								}
 							}
 						}
@@ -568,11 +580,11 @@ func serialRule(c *core.Ctx, rel, typ, meth, entryMeth string) {
 	}
 	bad := ""
 	switch {
-	case len(ranges) != 1:
-		bad = fmt.Sprintf("the serialiser does not range exactly once over a map (found %d range loops): entries can be skipped or repeated", len(ranges))
-	case ranges[0].X != ssa.Value(fn.Params[0]):
+	case appends != 1 || entryCalls != 1 || emitRange == nil:
+		bad = fmt.Sprintf("the loop body is not `acc = append(acc, entry.%s()...)` for the ranged entry (appends=%d, entry calls=%d): entries can be skipped or repeated", entryMeth, appends, entryCalls)
+	case emitRange.X != ssa.Value(fn.Params[0]):
 		bad = "the serialiser ranges over something other than its receiver"
-	case appends != 1 || entryCalls != 1:
+	case false:
 		bad = fmt.Sprintf("the loop body is not `acc = append(acc, entry.%s()...)` for the ranged entry (appends=%d, entry calls=%d)", entryMeth, appends, entryCalls)
 	}
 	// every entry is emitted: from the loop body's entry the append is reached without any conditional branch
@@ -596,7 +608,7 @@ func serialRule(c *core.Ctx, rel, typ, meth, entryMeth string) {
 			if !ok || ex.Index != 0 {
 				continue
 			}
-			if nx, ok := ex.Tuple.(*ssa.Next); !ok || nx.Iter != ssa.Value(ranges[0]) {
+			if nx, ok := ex.Tuple.(*ssa.Next); !ok || nx.Iter != ssa.Value(emitRange) {
 				continue
 			}
 			cur := b.Succs[0]
